@@ -2,7 +2,7 @@
 import props.catalog_all  # noqa: F401
 from vlib import harness as H
 from vlib.runner import run_property
-from props.common import (cell_obligations, rot, seed, COMMON_ASSUMPTIONS,
+from props.common import (cell_obligations, select_cells, rot, seed, COMMON_ASSUMPTIONS,
                           REAL_FUNCTIONS)
 from props import findings
 
@@ -13,7 +13,7 @@ def check_call(cell, cfg, args):
 
 
 def generate(tier):
-    cells = list(H.CATALOG.values())
+    cells = select_cells('C03', tier, list(H.CATALOG.values()), 1)
     if tier == 'quick':
         # -g builds carry the statement-boundary stack check
         cfgs = lambda c: [3 + rot(c.cid, seed() + 3, 3)]  # noqa: E731
